@@ -3,6 +3,7 @@ Gen — end-to-end correctness of event-level rows:
     ds.Select(e -> {name: col, …})     col = scalar (Count/Sum/arithmetic) | chain (vector) | First(chain)
 -/
 import FaxVerif.Gen.DeclsCorrect
+import FaxVerif.Gen.TokenTable
 import FaxVerif.Gen.FirstCorrect
 namespace FaxVerif.Gen
 open FaxVerif.Cpp FaxVerif.Linq
@@ -66,12 +67,12 @@ theorem foldG_push : ∀ (ws l0 : List (Val D)),
   | w :: ws, l0 => by simp [foldG, foldG_push ws (l0 ++ [w])]
 
 /-- **one column** -/
-theorem compCol_correct (C : Ctx D) (QC : QCtx D) (hN : QC.N = C.N) (hev : QC.ev = C.ev)
-    (B : Backend) (hB : BackendOK B) (nm cn : Nat → String)
+theorem compCol_correct_tok (C : Ctx D) (QC : QCtx D) (hN : QC.N = C.N) (hev : QC.ev = C.ev)
+    (B : Backend) (hB : BackendBase B) (nm cn : Nat → String)
     (hinj : ∀ i j, nm i = nm j → i = j) (hres : ∀ j, nm j ≠ "result")
     (hcres : ∀ k, cn k ≠ "result") (hdisj : ∀ j k, nm j ≠ cn k)
     (hcollT : ∀ name, B.collType name = QC.collType name)
-    (col : Col) (idx n : Nat) (s : St D) (v : Val D)
+    (col : Col) (idx n : Nat) (htok : TokCol B nm C col n) (s : St D) (v : Val D)
     (hdone : DeclsDone C.N (compCol B nm cn idx col n).decls s.env)
     (hpre : ColPre col (cn idx) s.env) (hhyp : ColHyp QC col)
     (hden : denote QC [("e", evtVal)] (colQ "e" col) = .ok v) :
@@ -86,7 +87,7 @@ theorem compCol_correct (C : Ctx D) (QC : QCtx D) (hN : QC.N = C.N) (hev : QC.ev
   cases col with
   | scalar e =>
     obtain ⟨hwt, hct, hsn⟩ := hhyp
-    obtain ⟨s', h1, h2, h3, _, h5⟩ := compEE_correct C QC hN hev B hB nm hinj hres hcollT e n s v
+    obtain ⟨s', h1, h2, h3, _, h5⟩ := compEE_correct_tok C QC hN hev B hB nm hinj hres hcollT e n s v htok
       (by simpa [compCol] using hdone) hwt hct hsn (by simpa [colQ] using hden)
     refine ⟨s', by simpa [compCol] using h1, h2, ?_, fun y _ hy => h5 y (by simpa [compCol] using hy)⟩
     simp only [ColReady, compCol]
@@ -105,7 +106,7 @@ theorem compCol_correct (C : Ctx D) (QC : QCtx D) (hN : QC.N = C.N) (hev : QC.ev
     have hx : (s.env (nm n)).isSome = true := by
       have := hdone (.decl (B.handleTy ((B.collType c.coll).getD "?")) (nm n) none) (by simp [compCol, compChain])
       simpa [DeclOK] using this
-    obtain ⟨s', hex, hP'⟩ := compChain_correct (β := List (Val D)) C QC hN B hB nm hinj hres c n K cty l ws
+    obtain ⟨s', hex, hP'⟩ := compChain_correct_tok (β := List (Val D)) C QC hN B hB nm hinj hres c n htok K cty l ws
       (by rw [hcollT]; exact hcty) (by rw [← hev]; exact hfind) hwt (hct cty l hfind) Pinv
       (fun a w => .ok (a ++ [w])) (fun _ => True) (fun _ _ => trivial)
       (by
@@ -141,12 +142,28 @@ theorem compCol_correct (C : Ctx D) (QC : QCtx D) (hN : QC.N = C.N) (hev : QC.ev
         have hfl : s.env (nm n) = some (.val (.bool true)) := by
           have := hdone (.decl "bool" (nm n) (some (.bool true))) (by simp [compCol])
           simpa [DeclOK, initValOf, litOf, castTo, asBool] using this
-        obtain ⟨_, hok⟩ := first_idiom C QC hN B hB nm hinj hres c n (cn idx) (fun j h => hdisj j idx h.symm) (hcres idx)
+        obtain ⟨_, hok⟩ := first_idiom_tok C QC hN B hB nm hinj hres c n htok (cn idx) (fun j h => hdisj j idx h.symm) (hcres idx)
           "First() called on an empty sequence" cty l (w :: rest)
           (by rw [hcollT]; exact hcty) (by rw [← hev]; exact hfind) hwt (hct cty l hfind) hel s hx hfl hpre
         obtain ⟨s', hex, hcv, hr, hfr⟩ := hok w rest rfl
         refine ⟨s', by simpa [compCol] using hex, hr, ?_, by simpa [compCol] using hfr⟩
         simpa [ColReady, compCol] using hcv
+
+/-- **one column** (retrieval by bank name) -/
+theorem compCol_correct (C : Ctx D) (QC : QCtx D) (hN : QC.N = C.N) (hev : QC.ev = C.ev)
+    (B : Backend) (hB : BackendOK B) (nm cn : Nat → String)
+    (hinj : ∀ i j, nm i = nm j → i = j) (hres : ∀ j, nm j ≠ "result")
+    (hcres : ∀ k, cn k ≠ "result") (hdisj : ∀ j k, nm j ≠ cn k)
+    (hcollT : ∀ name, B.collType name = QC.collType name)
+    (col : Col) (idx n : Nat) (s : St D) (v : Val D)
+    (hdone : DeclsDone C.N (compCol B nm cn idx col n).decls s.env)
+    (hpre : ColPre col (cn idx) s.env) (hhyp : ColHyp QC col)
+    (hden : denote QC [("e", evtVal)] (colQ "e" col) = .ok v) :
+    ∃ s', execs C (compCol B nm cn idx col n).stmts s = .ok s' ∧ s'.rows = s.rows ∧
+      ColReady C.N (compCol B nm cn idx col n) v s'.env ∧
+      (∀ y, y ≠ cn idx → ¬ Touch nm n (compCol B nm cn idx col n).next y → s'.env y = s.env y) :=
+  compCol_correct_tok C QC hN hev B hB.base nm cn hinj hres hcres hdisj hcollT col idx n
+    (tokCol_of_notToken hB.notToken nm C col n) s v hdone hpre hhyp hden
 
 end FaxVerif.Gen
 
@@ -220,22 +237,22 @@ theorem colsPre_stable (cn : Nat → String) : ∀ (cols : List Col) (idx : Nat)
     cases c <;> simp only [ColPre] at h ⊢ <;> rw [hag idx (Nat.le_refl _)] <;> exact h.1
 
 /-- running the loops of all columns, in order -/
-theorem compCols_correct (C : Ctx D) (QC : QCtx D) (hN : QC.N = C.N) (hev : QC.ev = C.ev)
-    (B : Backend) (hB : BackendOK B) (nm cn : Nat → String)
+theorem compCols_correct_tok (C : Ctx D) (QC : QCtx D) (hN : QC.N = C.N) (hev : QC.ev = C.ev)
+    (B : Backend) (hB : BackendBase B) (nm cn : Nat → String)
     (hinj : ∀ i j, nm i = nm j → i = j) (hcinj : ∀ i j, cn i = cn j → i = j) (hres : ∀ j, nm j ≠ "result")
     (hcres : ∀ k, cn k ≠ "result") (hdisj : ∀ j k, nm j ≠ cn k)
     (hcollT : ∀ name, B.collType name = QC.collType name) :
-    ∀ (cols : List Col) (idx n : Nat) (s : St D) (vs : List (Val D)),
+    ∀ (cols : List Col) (idx n : Nat) (s : St D) (vs : List (Val D)), TokCols B nm cn C cols idx n →
       DeclsDone C.N ((compCols B nm cn cols idx n).flatMap (·.decls)) s.env →
       ColsPre cn cols idx s.env → (∀ col ∈ cols, ColHyp QC col) →
       denotes QC [("e", evtVal)] (cols.map (colQ "e")) = .ok vs →
       ∃ s', execs C ((compCols B nm cn cols idx n).flatMap (·.stmts)) s = .ok s' ∧ s'.rows = s.rows ∧
         AllReady C.N (compCols B nm cn cols idx n) vs s'.env ∧ AllVecOk cols vs ∧
         (∀ y, (∀ k, idx ≤ k → y ≠ cn k) → ¬ Touch nm n (colsNext B nm cn cols idx n) y → s'.env y = s.env y)
-  | [], idx, n, s, vs, _, _, _, hden => by
+  | [], idx, n, s, vs, _, _, _, _, hden => by
     simp only [List.map_nil, denotes, Except.ok.injEq] at hden; subst hden
     exact ⟨s, by simp [compCols, execs], rfl, by simp [compCols, AllReady], by simp [AllVecOk], fun _ _ _ => rfl⟩
-  | c :: cs, idx, n, s, vs, hdone, hpre, hhyp, hden => by
+  | c :: cs, idx, n, s, vs, htk, hdone, hpre, hhyp, hden => by
     simp only [List.map_cons, denotes] at hden
     cases hd1 : denote QC [("e", evtVal)] (colQ "e" c) with
     | error e => rw [hd1] at hden; simp at hden
@@ -249,7 +266,7 @@ theorem compCols_correct (C : Ctx D) (QC : QCtx D) (hN : QC.N = C.N) (hev : QC.e
         simp only [ColsPre] at hpre
         have h1 := compCol_next_ge B nm cn idx c n
         have h2 := colsNext_ge B nm cn cs (idx + 1) (compCol B nm cn idx c n).next
-        obtain ⟨s1, hex1, hr1, hready1, hfr1⟩ := compCol_correct C QC hN hev B hB nm cn hinj hres hcres hdisj hcollT c idx n s v
+        obtain ⟨s1, hex1, hr1, hready1, hfr1⟩ := compCol_correct_tok C QC hN hev B hB nm cn hinj hres hcres hdisj hcollT c idx n htk.1 s v
           (fun d hd => hdone d (by simp [hd])) hpre.1 (hhyp c (by simp)) hd1
         -- the rest sees its declarations and class variables untouched
         have hrest_names : ∀ y, InRange nm (compCol B nm cn idx c n).next (colsNext B nm cn cs (idx + 1) (compCol B nm cn idx c n).next) y →
@@ -269,8 +286,8 @@ theorem compCols_correct (C : Ctx D) (QC : QCtx D) (hN : QC.N = C.N) (hev : QC.e
             · exact hcres k h
         have hdone2 : DeclsDone C.N ((compCols B nm cn cs (idx + 1) (compCol B nm cn idx c n).next).flatMap (·.decls)) s1.env :=
           DeclsDone.transport (fun d hd => hdone d (by simp [hd])) (compCols_declsIn B nm cn cs (idx + 1) _) hrest_names
-        obtain ⟨s', hex2, hr2, hready2, hvec2, hfr2⟩ := compCols_correct C QC hN hev B hB nm cn hinj hcinj hres hcres hdisj hcollT
-          cs (idx + 1) _ s1 vs' hdone2 (colsPre_stable cn cs (idx + 1) s.env s1.env hcn_rest hpre.2)
+        obtain ⟨s', hex2, hr2, hready2, hvec2, hfr2⟩ := compCols_correct_tok C QC hN hev B hB nm cn hinj hcinj hres hcres hdisj hcollT
+          cs (idx + 1) _ s1 vs' htk.2 hdone2 (colsPre_stable cn cs (idx + 1) s.env s1.env hcn_rest hpre.2)
           (fun col hc => hhyp col (by simp [hc])) hd2
         refine ⟨s', by rw [execs_append, hex1]; exact hex2, by rw [hr2, hr1], ⟨?_, hready2⟩, ⟨?_, hvec2⟩, ?_⟩
         · -- the first column's readiness survives the later columns
@@ -297,6 +314,22 @@ theorem compCols_correct (C : Ctx D) (QC : QCtx D) (hN : QC.N = C.N) (hev : QC.e
           simp only [colsNext] at hy2
           rw [hfr2 y (fun k hk => hy1 k (by omega)) (not_touch_sub hy2 h1 (Nat.le_refl _)),
               hfr1 y (hy1 idx (Nat.le_refl _)) (not_touch_sub hy2 (Nat.le_refl _) h2)]
+
+/-- running the loops of all columns, in order (retrieval by bank name) -/
+theorem compCols_correct (C : Ctx D) (QC : QCtx D) (hN : QC.N = C.N) (hev : QC.ev = C.ev)
+    (B : Backend) (hB : BackendOK B) (nm cn : Nat → String)
+    (hinj : ∀ i j, nm i = nm j → i = j) (hcinj : ∀ i j, cn i = cn j → i = j) (hres : ∀ j, nm j ≠ "result")
+    (hcres : ∀ k, cn k ≠ "result") (hdisj : ∀ j k, nm j ≠ cn k)
+    (hcollT : ∀ name, B.collType name = QC.collType name)
+    (cols : List Col) (idx n : Nat) (s : St D) (vs : List (Val D))
+    (hdone : DeclsDone C.N ((compCols B nm cn cols idx n).flatMap (·.decls)) s.env)
+    (hpre : ColsPre cn cols idx s.env) (hhyp : ∀ col ∈ cols, ColHyp QC col)
+    (hden : denotes QC [("e", evtVal)] (cols.map (colQ "e")) = .ok vs) :
+    ∃ s', execs C ((compCols B nm cn cols idx n).flatMap (·.stmts)) s = .ok s' ∧ s'.rows = s.rows ∧
+      AllReady C.N (compCols B nm cn cols idx n) vs s'.env ∧ AllVecOk cols vs ∧
+      (∀ y, (∀ k, idx ≤ k → y ≠ cn k) → ¬ Touch nm n (colsNext B nm cn cols idx n) y → s'.env y = s.env y) :=
+  compCols_correct_tok C QC hN hev B hB.base nm cn hinj hcinj hres hcres hdisj hcollT cols idx n s vs
+    (tokCols_of_notToken hB.notToken nm cn C cols idx n) hdone hpre hhyp hden
 
 /-! ## assignments, fill, clears -/
 
@@ -373,6 +406,58 @@ theorem sets_correct (C : Ctx D) (B : Backend) (nm cn : Nat → String)
         simp only [ColReady, compCol] at hr
         refine ⟨s', by simpa [compCol] using hex, hrows, ⟨?_, hvars⟩, fun y hy => hfr y (fun k hk => hy k (by omega))⟩
         rw [hfr (cn idx) (fun k hk e' => by have := hcinj _ _ e'; omega)]; exact hr
+
+theorem colsPre_congr (cn : Nat → String) : ∀ (cols : List Col) (idx : Nat) (σ σ' : Env D),
+    (∀ k, idx ≤ k → k < idx + cols.length → σ' (cn k) = σ (cn k)) → ColsPre cn cols idx σ → ColsPre cn cols idx σ'
+  | [], _, _, _, _, _ => trivial
+  | c :: cs, idx, σ, σ', hag, h => by
+    simp only [ColsPre] at h ⊢
+    refine ⟨?_, colsPre_congr cn cs (idx + 1) σ σ' (fun k hk1 hk2 => hag k (by omega) (by simp only [List.length_cons]; omega)) h.2⟩
+    cases c <;> simp only [ColPre] at h ⊢ <;> rw [hag idx (Nat.le_refl _) (by simp only [List.length_cons]; omega)] <;> exact h.1
+
+/-- the clears after the fill, and what they leave: every vector column empty again, every other
+column variable still declared — the precondition `ColsPre` of the NEXT event -/
+theorem clears_correct_post (C : Ctx D) (B : Backend) (nm cn : Nat → String) (hcinj : ∀ i j, cn i = cn j → i = j) :
+    ∀ (cols : List Col) (idx n : Nat) (s : St D) (vs : List (Val D)),
+      VarsHold cn idx vs s.env → AllVecOk cols vs →
+      ∃ s', execs C ((compCols B nm cn cols idx n).flatMap (·.clears)) s = .ok s' ∧ s'.rows = s.rows ∧
+        ColsPre cn cols idx s'.env ∧ (∀ y, (∀ k, idx ≤ k → y ≠ cn k) → s'.env y = s.env y)
+  | [], _, _, s, _, _, _ => ⟨s, by simp [compCols, execs], rfl, trivial, fun _ _ => rfl⟩
+  | c :: cs, idx, n, s, vs, hv, hok => by
+    cases vs with
+    | nil => simp [AllVecOk] at hok
+    | cons v vs =>
+      simp only [AllVecOk] at hok
+      simp only [VarsHold] at hv
+      simp only [compCols, List.flatMap_cons]
+      have hself : ∀ k, idx + 1 ≤ k → cn idx ≠ cn k := fun k hk e => by have := hcinj _ _ e; omega
+      cases c with
+      | seq ch =>
+        obtain ⟨l, rfl⟩ := hok.1
+        let s1 : St D := { s with env := s.env.set (cn idx) (.vec []) }
+        have hv1 : VarsHold cn (idx + 1) vs s1.env :=
+          varsHold_stable cn vs (idx + 1) s.env s1.env (fun k hk => by
+            have : cn k ≠ cn idx := fun e => by have := hcinj _ _ e; omega
+            simp [s1, Env.set, this]) hv.2
+        obtain ⟨s', hex, hr, hpre, hfr⟩ := clears_correct_post C B nm cn hcinj cs (idx + 1) _ s1 vs hv1 hok.2
+        refine ⟨s', ?_, by rw [hr], ⟨?_, hpre⟩, ?_⟩
+        · simp only [compCol, List.cons_append, List.nil_append, execs, exec, hv.1]
+          exact hex
+        · simp only [ColPre]
+          rw [hfr (cn idx) hself]; simp [s1, Env.set]
+        · intro y hy
+          rw [hfr y (fun k hk => hy k (by omega))]
+          simp [s1, Env.set, hy idx (Nat.le_refl _)]
+      | scalar e =>
+        obtain ⟨s', hex, hr, hpre, hfr⟩ := clears_correct_post C B nm cn hcinj cs (idx + 1) _ s vs hv.2 hok.2
+        refine ⟨s', by simpa [compCol] using hex, hr, ⟨?_, hpre⟩, fun y hy => hfr y (fun k hk => hy k (by omega))⟩
+        simp only [ColPre]
+        rw [hfr (cn idx) hself, hv.1]; rfl
+      | first ch =>
+        obtain ⟨s', hex, hr, hpre, hfr⟩ := clears_correct_post C B nm cn hcinj cs (idx + 1) _ s vs hv.2 hok.2
+        refine ⟨s', by simpa [compCol] using hex, hr, ⟨?_, hpre⟩, fun y hy => hfr y (fun k hk => hy k (by omega))⟩
+        simp only [ColPre]
+        rw [hfr (cn idx) hself, hv.1]; rfl
 
 /-- the clears after the fill -/
 theorem clears_correct (C : Ctx D) (B : Backend) (nm cn : Nat → String) (hcinj : ∀ i j, cn i = cn j → i = j) :
@@ -476,8 +561,11 @@ theorem exec_block5 (C : Ctx D) (Ds Ss Ts Cl : List Stmt) (t : String) (s0 sD sS
 /-- **C01 (event-level rows)** — for every list of columns (scalars built from Count / Sum /
 arithmetic, vector columns from chains, First of a chain), every event and every class state in
 which the column variables are declared and the vector columns empty: if the query denotes `rows`
-(necessarily one row) on the event, the package the translator model emits writes exactly `rows`. -/
-theorem eventRows_correct (B : Backend) (hB : BackendOK B) (nm cn : Nat → String)
+(necessarily one row) on the event, the package the translator model emits writes exactly `rows`,
+and the class state it leaves behind satisfies the same precondition again (the emitted `clear`s
+have emptied the vector columns; the scalar columns stay declared). All three backends: on the
+token idiom the table `compile` emits binds every chain's token (`tokCols_eventRows`). -/
+theorem eventRows_correct_post (B : Backend) (hB : BackendBase B) (nm cn : Nat → String)
     (hinj : ∀ i j, nm i = nm j → i = j) (hcinj : ∀ i j, cn i = cn j → i = j)
     (hres : ∀ j, nm j ≠ "result") (hcres : ∀ k, cn k ≠ "result") (hdisj : ∀ j k, nm j ≠ cn k)
     (QC : QCtx D) (hcollT : ∀ name, B.collType name = QC.collType name)
@@ -485,7 +573,8 @@ theorem eventRows_correct (B : Backend) (hB : BackendOK B) (nm cn : Nat → Stri
     (σc : Env D) (hσ : ColsPre cn (cols.map (·.2)) 0 σc)
     (rows : List (List (Val D)))
     (hden : denoteRows QC (FQ.toQuery (.eventRows cols)) = .ok rows) :
-    ∃ σ', runEvent (compile B nm cn (.eventRows cols)) QC.N σc QC.ev = .ok (rows, σ') := by
+    ∃ σ', runEvent (compile B nm cn (.eventRows cols)) QC.N σc QC.ev = .ok (rows, σ') ∧
+      ColsPre cn (cols.map (·.2)) 0 σ' := by
   obtain ⟨vs, hvs, rfl⟩ := eventRows_denote QC cols rows hden
   let cs := cols.map (·.2)
   let fs := compCols B nm cn cs 0 0
@@ -497,7 +586,7 @@ theorem eventRows_correct (B : Backend) (hB : BackendOK B) (nm cn : Nat → Stri
   have hvlen : vs.length = cs.length := by
     have := denotes_length QC _ _ vs hvs; simpa [cs] using this
   -- 1. declarations
-  obtain ⟨hsimple, hnodup⟩ := compCols_declsOK C B hB nm cn hinj cs 0 0
+  obtain ⟨hsimple, hnodup⟩ := compCols_declsOK_base C B hB nm cn hinj cs 0 0
   obtain ⟨sD, hexD, hrD, hdone, hfrD⟩ := exec_decls C (fs.flatMap (·.decls)) ⟨σc, []⟩ hsimple hnodup
   have hcnD : ∀ k, sD.env (cn k) = σc (cn k) := by
     intro k
@@ -506,8 +595,8 @@ theorem eventRows_correct (B : Backend) (hB : BackendOK B) (nm cn : Nat → Stri
     obtain ⟨j, _, _, hj⟩ := declsIn_names (compCols_declsIn B nm cn cs 0 0) _ hm
     exact hdisj j k hj.symm
   -- 2. the loops of all columns
-  obtain ⟨sS, hexS, hrS, hready, hvec, _⟩ := compCols_correct C QC rfl rfl B hB nm cn hinj hcinj hres hcres hdisj hcollT
-    cs 0 0 sD vs hdone (colsPre_stable cn cs 0 σc sD.env (fun k _ => hcnD k) hσ)
+  obtain ⟨sS, hexS, hrS, hready, hvec, _⟩ := compCols_correct_tok C QC rfl rfl B hB nm cn hinj hcinj hres hcres hdisj hcollT
+    cs 0 0 sD vs (tokCols_eventRows B nm cn hinj cols QC.N QC.ev) hdone (colsPre_stable cn cs 0 σc sD.env (fun k _ => hcnD k) hσ)
     (fun col hc => by
       obtain ⟨p, hp, rfl⟩ := List.mem_map.1 hc
       exact hhyp p hp) hvs
@@ -517,8 +606,26 @@ theorem eventRows_correct (B : Backend) (hB : BackendOK B) (nm cn : Nat → Stri
   have hread : readCols sT.env C.cols = .ok vs := by
     rw [hCcols, ← hvlen]; exact readCols_of_varsHold cn vs 0 sT.env hvars
   -- 5. clears
-  obtain ⟨sF, hexF, hrF⟩ := clears_correct C B nm cn hcinj cs 0 0 ⟨sT.env, sT.rows ++ [vs]⟩ vs hvars hvec
-  refine ⟨keepClass P.classVars sF.env, ?_⟩
+  obtain ⟨sF, hexF, hrF, hpreF, _⟩ := clears_correct_post C B nm cn hcinj cs 0 0 ⟨sT.env, sT.rows ++ [vs]⟩ vs hvars hvec
+  refine ⟨keepClass P.classVars sF.env, ?_, ?_⟩
+  rotate_left
+  · -- the class state left behind
+    apply colsPre_congr cn cs 0 sF.env _ _ hpreF
+    intro k _ hk
+    have hmem : cn k ∈ P.classVars.map (·.2) := by
+      have h1 : cn k ∈ (fs.map (·.classVar)).map (·.2) := by
+        rw [List.map_map]
+        have := compCols_vars' B nm cn cs 0 0
+        simp only [fs]
+        rw [show ((fun x : String × String => x.2) ∘ fun x : ColFrag => x.classVar) = (fun x : ColFrag => x.classVar.2) from rfl, this]
+        exact mem_colNames cn _ 0 k (Nat.zero_le _) (by simpa using hk)
+      simp only [P, compile, List.map_append, List.mem_append]
+      exact Or.inr h1
+    have hany : P.classVars.any (fun p => decide (p.2 = cn k)) = true := by
+      obtain ⟨p, hp, hpe⟩ := List.mem_map.1 hmem
+      simp only [List.any_eq_true, decide_eq_true_eq]
+      exact ⟨p, hp, hpe⟩
+    simp only [keepClass, hany, if_true]
   have hblock := exec_block5 C (fs.flatMap (·.decls)) (fs.flatMap (·.stmts)) (fs.flatMap (·.sets)) (fs.flatMap (·.clears))
     (B.fillTree B.treeName) ⟨σc, []⟩ sD sS sT sF vs hexD hexS hexT hread hexF
   have hbody : P.body = .block (fs.flatMap (·.decls) ++ fs.flatMap (·.stmts) ++ fs.flatMap (·.sets) ++
@@ -534,5 +641,18 @@ theorem eventRows_correct (B : Backend) (hB : BackendOK B) (nm cn : Nat → Stri
     rw [hrF]; simp only
     rw [hrT, hrS, hrD]; rfl
   rw [this]
+
+/-- `eventRows_correct_post` without the post-state (the statement `C01.eventRows_correct_partial` wraps). -/
+theorem eventRows_correct (B : Backend) (hB : BackendOK B) (nm cn : Nat → String)
+    (hinj : ∀ i j, nm i = nm j → i = j) (hcinj : ∀ i j, cn i = cn j → i = j)
+    (hres : ∀ j, nm j ≠ "result") (hcres : ∀ k, cn k ≠ "result") (hdisj : ∀ j k, nm j ≠ cn k)
+    (QC : QCtx D) (hcollT : ∀ name, B.collType name = QC.collType name)
+    (cols : List (String × Col)) (hhyp : ∀ p ∈ cols, ColHyp QC p.2)
+    (σc : Env D) (hσ : ColsPre cn (cols.map (·.2)) 0 σc)
+    (rows : List (List (Val D)))
+    (hden : denoteRows QC (FQ.toQuery (.eventRows cols)) = .ok rows) :
+    ∃ σ', runEvent (compile B nm cn (.eventRows cols)) QC.N σc QC.ev = .ok (rows, σ') := by
+  obtain ⟨σ', h, _⟩ := eventRows_correct_post B hB.base nm cn hinj hcinj hres hcres hdisj QC hcollT cols hhyp σc hσ rows hden
+  exact ⟨σ', h⟩
 
 end FaxVerif.Gen
